@@ -46,6 +46,15 @@ impl SlotVersion {
     }
 }
 
+#[cfg(gecs_verif)]
+impl ArchetypeVersion {
+    pub(crate) fn verif_new(version: u32) -> Self {
+        Self {
+            version: NonZeroU32::new(version).unwrap(),
+        }
+    }
+}
+
 impl ArchetypeVersion {
     #[inline(always)]
     pub(crate) fn start() -> Self {
